@@ -187,12 +187,12 @@ one error: the message at (len, len) -/
 theorem unterminated_reported_witness :
     errorCount (Grammar.parse ['#','i','f','d','e','f',' ','X','\n','c','l','a','s','s',' ','A',';']) = some 1 ∧
     lastError (Grammar.parse ['#','i','f','d','e','f',' ','X','\n','c','l','a','s','s',' ','A',';']) =
-      some (17, 17, "reached EOF without matching #endif") ∧
+      some (17, 17, eofMsg) ∧
     errorCount (Grammar.parse ['#','d','e','f','i','n','e',' ','X','\n','#','i','f','d','e','f',' ','X','\n',
                                'c','l','a','s','s',' ','A',';']) = some 1 ∧
     lastError (Grammar.parse ['#','d','e','f','i','n','e',' ','X','\n','#','i','f','d','e','f',' ','X','\n',
                                'c','l','a','s','s',' ','A',';']) =
-      some (27, 27, "reached EOF without matching #endif") := by
+      some (27, 27, eofMsg) := by
   refine ⟨?_, ?_, ?_, ?_⟩ <;> decide +kernel
 
 /-- non-vacuity of `unterminated_reported`: both texts are unterminated arrangements as the lexer
